@@ -6,11 +6,14 @@
    specified contents (C14).                                                   *)
 EXTENDS ActorCore, Json, IOUtils
 
+CONSTANT Prop   \* "C14": every reply; "C07": only what depends on the capability (write attempts, capability kinds)
+
 Rec == ndJsonDeserialize(IOEnv.TRACE)
 VARIABLES l, st
 vars == <<l, st>>
 
-Start == [docs |-> [d \in 1..2 |-> [cap |-> "write", recs |-> {}]], open |-> <<>>, authors |-> {1, 2}]
+StartWith(caps) == [docs |-> [d \in 1..Len(caps) |-> [cap |-> caps[d], recs |-> {}]], open |-> <<>>, authors |-> {1, 2}]
+Start == StartWith(<<"write", "write">>)
 
 ValOk(q, R) ==
   CASE q.op \in {"Close", "GetState", "GetMany", "GetExact", "DeletePrefix"} -> q.val = R.val
@@ -22,19 +25,23 @@ Succ(q, R) == IF q.op = "Drop" /\ R.res # "ok" THEN {R.st, st} ELSE {R.st}
 
 ReqStep(q) ==
   LET R == ActorStep(st, q) IN
-  /\ (q.res = "ok") = (R.res = "ok")
-  /\ q.res = "ok" => ValOk(q, R)
+  /\ Prop = "C14" => /\ (q.res = "ok") = (R.res = "ok")
+                     /\ q.res = "ok" => ValOk(q, R)
+  \* C07: a write attempt that passes the open / author gates is refused exactly when the capability is not write
+  /\ (Prop = "C07" /\ q.op \in {"InsertLocal", "DeletePrefix"} /\ R.res \in {"ok", "ReadOnly", "NewerEntryExists"}
+        /\ q.res \in {"ok", "ReadOnly", "NewerEntryExists"})
+       => (q.res = "ReadOnly") = (R.res = "ReadOnly")
   /\ st' \in Succ(q, R)
 
 ShutdownOk(r) ==
   /\ r.res = "ok"
-  /\ \A d \in 1..Len(r.docs) : r.docs[d].cap = st.docs[d].cap /\ ToSet(r.docs[d].st) = st.docs[d].recs
+  /\ \A d \in 1..Len(r.docs) : r.docs[d].cap = st.docs[d].cap /\ (Prop = "C14" => ToSet(r.docs[d].st) = st.docs[d].recs)
 
 Init == l = 1 /\ st = Start
 Step ==
   /\ l <= Len(Rec)
   /\ LET r == Rec[l] IN
-       CASE r.ev = "Reset" -> st' = Start
+       CASE r.ev = "Reset" -> st' = StartWith(r.caps)
          [] r.ev = "Req" -> ReqStep(r)
          [] r.ev = "Shutdown" -> ShutdownOk(r) /\ st' = st
          [] OTHER -> FALSE
